@@ -14,6 +14,30 @@ import Matreex.Model.Mul
 import Matreex.Model.Convert
 import Matreex.Model.Index
 
+namespace Matreex
+variable {α : Type}
+
+/-- `*m.get_mut((i, j))? = v`: the checked mutable access of `Model/Index.lean` (`Matrix.getIdx`, the
+function T11's bridge ties to `src/index.rs`); on `Ok` the element the returned reference points at is
+overwritten (the old one is dropped), on `Err(IndexOutOfBounds)` the matrix is untouched.  By C03 /
+C06 / C15 the same write is what a mutable row / column view or `iter_elements_mut` performs at that
+logical position. -/
+def Matrix.setAt (m : Matrix α) (i j : Nat) (v : α) : M (Except Error Unit × Matrix α) :=
+  match m.getIdx i j with
+  | .error e => .error e
+  | .ok (.error e) => .ok (.error e, m)
+  | .ok (.ok k) => .ok (.ok (), { m with data := m.data.setIfInBounds k v })
+
+/-- `let e = m.get_mut((i, j))?; *e = f(*e)`: in-place read-modify-write of one element, same
+failure behaviour as `setAt` -/
+def Matrix.updAt (m : Matrix α) (i j : Nat) (f : α → α) : M (Except Error Unit × Matrix α) :=
+  match m.getIdx i j with
+  | .error e => .error e
+  | .ok (.error e) => .ok (.error e, m)
+  | .ok (.ok k) => .ok (.ok (), { m with data := m.data.modify k f })
+
+end Matreex
+
 namespace Matreex.History
 open Matreex
 
@@ -39,6 +63,8 @@ inductive Op (α : Type) where
   | multiply (dst a b : Nat) (mul add : α → α → α) (dflt : α)
   | clear (r : Nat)
   | drop (r : Nat)
+  | setAt (r i j : Nat) (v : α)                          -- `*m.get_mut((i, j))? = v` / `m[(i, j)] = v` / a write through a mutable view
+  | updAt (r i j : Nat) (f : α → α)                      -- `let e = m.get_mut((i, j))?; *e = f(*e)`
 
 structure World (α : Type) where
   regs : List (Option (Matrix α))
@@ -61,6 +87,8 @@ def Op.WF : Op α → Prop
   | .swapRows _ a b => a ≤ usizeMax ∧ b ≤ usizeMax
   | .swapCols _ a b => a ≤ usizeMax ∧ b ≤ usizeMax
   | .swapElems _ i1 j1 i2 j2 => i1 ≤ usizeMax ∧ j1 ≤ usizeMax ∧ i2 ≤ usizeMax ∧ j2 ≤ usizeMax
+  | .setAt _ i j _ => i ≤ usizeMax ∧ j ≤ usizeMax
+  | .updAt _ i j _ => i ≤ usizeMax ∧ j ≤ usizeMax
   | _ => True
 
 /-- run an operation on one register in place; a `Result::Err` keeps the old matrix -/
@@ -129,6 +157,8 @@ def step (es : Nat) (w : World α) : Op α → M (World α)
     | _, _ => .ok w
   | .clear r => inPlace' w r (fun m => .ok { m with shape := ⟨0, 0⟩, data := #[] })
   | .drop r => .ok (w.set r none)
+  | .setAt r i j v => inPlace w r (·.setAt i j v)
+  | .updAt r i j f => inPlace w r (·.updAt i j f)
 
 def run (es : Nat) : World α → List (Op α) → M (World α)
   | w, [] => .ok w
